@@ -220,7 +220,19 @@ def clamp(facts: CppFacts):
                     m.file, m.line, f"{short}::GetOffsetStorage")
             continue
         size_expr = " ".join(tokens(mm.group(1)))
-        res.instances += 2
+        res.instances += 3
+        # is the whole initialiser the else-arm of `<cond> ? <null buffer> : {...}` with `size_ < offset` among the
+        # disjuncts of <cond>?  Then neither the pointer nor the difference is evaluated for an offset past the end.
+        before = " ".join(tokens(m.body[:mm.start()]))
+        rm = re.search(r"return\s+(.*?)\?\s*\w+\s*\{\s*nullptr\s*\}\s*:\s*\w+\s*$", before)
+        outer_guard = False
+        if rm:
+            disj = [d.strip() for d in rm.group(1).split("||")]
+            outer_guard = any(re.fullmatch(r"size_\s*<\s*" + re.escape(off) + r"|" + re.escape(off) + r"\s*>\s*size_", d) for d in disj)
+        if not outer_guard:
+            res.add(f"{m.file}|{short}::GetOffsetStorage|oob-pointer", f"`bytes_ + {off}` is formed even when {off} lies past the end of "
+                    "the buffer (only the size is clamped): undefined behaviour, and a wrapped pointer for offsets computed from the "
+                    f"data; the null-buffer arm must also be taken when `size_ < {off}`", m.file, m.line, f"{short}::GetOffsetStorage")
         if not re.search(r"\bsize_\b", size_expr):
             res.add(f"{m.file}|{short}::GetOffsetStorage|unclamped", f"the sub-buffer's size is `{size_expr}`, which does not depend "
                     "on the parent's size_: a field that extends past the end of the buffer gets a view larger than the memory "
@@ -229,7 +241,7 @@ def clamp(facts: CppFacts):
         if re.search(r"\bsize_\s*-\s*" + re.escape(off) + r"\b", size_expr):
             guard = re.search(r"(\bsize_\s*<\s*" + re.escape(off) + r"\b|\b" + re.escape(off) + r"\s*>\s*size_\b)\s*\?\s*0\s*:", size_expr) \
                 or re.search(r"(\bsize_\s*>=\s*" + re.escape(off) + r"\b|\b" + re.escape(off) + r"\s*<=\s*size_\b)\s*\?", size_expr)
-            if not guard:
+            if not guard and not outer_guard:
                 res.add(f"{m.file}|{short}::GetOffsetStorage|underflow", f"`size_ - {off}` in `{size_expr}` is not the arm of a "
                         f"comparison between size_ and {off}: for an offset past the end the unsigned difference wraps and the "
                         "sub-buffer claims almost the whole address space", m.file, m.line, f"{short}::GetOffsetStorage")
